@@ -51,6 +51,10 @@ CLAIMS = {
             "A translator regenerates, on every run, the table of all return sites of do_space() (359: rule logged, shape of the returned expression, option read) and fails loudly on any unknown shape; the Coq theorem C19_rules_faithful is re-proved by computation against the regenerated option registry: every site returns a constant under a non-option label or (a listed function of) the value of the VERY option it logs. Further theorems: what each shape can return relative to the configured value (only the lexical-exception shapes turn Remove into Add/Force), ensure_force_space only adds, and the column arithmetic of the decision (Remove 0, Force max(1,min_sp), Add at least that, Ignore keeps the original gap). Tie: translator + hook H2: every pair decided by space_text() on the explored runs (all sp_ options at each of the four values and random joint assignments over a corpus slice) is looked up by source line in the table and checked for the returned value and the gap; when the table theorem breaks, a targeted search sets the two confused options differently and looks for a concrete pair.",
             "Trusted: Coq kernel (vm_compute), translators gen_space.py/gen_registry.py, hook H2, extraction/driver. do_space()'s branch conditions (which site fires for which pair) are not modelled; virtual-brace and trailing-comment adjustments are excluded from the gap check.",
             "DESIGN.md section 6 C19"),
+    "C11": ("proof",
+            "A general Coq frame theorem (any number of files, any order, ARBITRARY processing function constrained only by 'writes nothing outside W' and 'result depends on input and store'): if every field written while a file is processed is reset in uncrustify_end or prepared per file, a batch gives every file the output of a separate invocation. Its instance is re-proved on every run over the inventory a translator regenerates from the source (all 45 fields of the global cpd, every write site in src/, the reset values in uncrustify_end): each written field is reset to its initial value, assigned unconditionally by the per-file set-up code, or carries a reviewed justification; a dropped reset, a new write or a new field breaks the theorem. Tie: translator + oracle: all ordered pairs (and random longer sequences) of a 24-file pool chosen to leave state behind (ends inside a directive/disabled region/#pragma asm, unbalanced #if, CRLF, BOM, empty, Objective-C tokens under -l C, Qt macros, include sorting) are run positional and via -F, with and without -l, and compared byte for byte with single runs; the writer state at the end of each file is checked against the justification.",
+            "Trusted: Coq kernel (vm_compute), translator gen_globals.py, the reviewed justifications in coq/Proofs/FrameInst.v. File-scope statics other than cpd and the option objects (options_for_QT.cpp) are outside the inventory and covered by the oracle only. The two frame assumptions on the unmodelled processing are Section hypotheses.",
+            "DESIGN.md section 6 C11"),
 }
 
 
